@@ -151,3 +151,13 @@ class _SpherematchBookkeeping(FunctionContract):
 for _shape in [(2, 1), (2, 2), (2, 3), (3, 2), (3, 3)]:
     _cls = type("SpherematchBookkeeping_%dx%d" % _shape, (_SpherematchBookkeeping,), dict(shape=_shape, name="spherematch_bookkeeping_%dx%d" % _shape, __module__=__name__))
     globals()[_cls.__name__] = register("C04")(_cls)
+
+
+# spherematch reports gcirc()/3600 as "the true separation": the callee's contract (C18: gcirc is the great-circle distance)
+# is part of this property's check
+import contracts.c18 as _c18
+
+
+@register("C04")
+class CalleeGcirc(_c18.GcircFormula):
+    name = "callee_gcirc_vector_formula"
